@@ -103,6 +103,11 @@ func sameVal(a, b interface{}) bool {
 }
 
 // output of the previous case's direct MarshalJSON call and a private copy of it (history check)
+var c02longF = &geojson.Feature{}
+var c02longG = &geojson.Geometry{}
+var c02longN int
+var c02retG retained
+
 var c02held, c02heldCopy []byte
 var c02heldG, c02heldGCopy []byte
 
@@ -297,6 +302,26 @@ func init() {
 			if err != nil || !bytes.Equal(again, data) {
 				c.Fail("", "marshalling the decoded geometry again is not byte-identical", map[string]interface{}{"case": d(), "first": string(data), "second": string(again)})
 			}
+			// one destination value for every row (JSON and BSON alternately): it must hold this geometry, whatever it held before,
+			// and what an earlier row handed out must stay as it was
+			prev := c02longG.Geometry()
+			var derr error
+			how := "json.Unmarshal"
+			if c02longN++; c02longN%2 == 0 {
+				derr = json.Unmarshal(data, c02longG)
+			} else if bd, e := bson.Marshal(geojson.NewGeometry(g)); e == nil {
+				derr, how = bson.Unmarshal(bd, c02longG), "bson.Unmarshal"
+			}
+			c.Eval()
+			if derr != nil || !refmodel.EqualBits(c02longG.Geometry(), want) {
+				c.Fail("", how+" into a geometry value that was used for an earlier decode does not give this geometry", map[string]interface{}{"case": d(), "err": sv(derr), "held_before": sv(prev), "got": sv(c02longG.Geometry()), "got_kind": refmodel.KindName(c02longG.Geometry())})
+				c02longG = &geojson.Geometry{}
+			} else if again2, err := c02longG.MarshalJSON(); err != nil || !bytes.Equal(again2, data) {
+				c.Fail("", "a geometry value used for an earlier decode marshals differently after decoding this geometry", map[string]interface{}{"case": d(), "held_before": sv(prev), "first": string(data), "second": string(again2)})
+				c02longG = &geojson.Geometry{}
+			}
+			c02retG.check(c)
+			c02retG.set(c02longG.Geometry(), "decoding a later geometry into the same *geojson.Geometry")
 		}
 		// ---- BSON (a geometry document needs a non-null geometry)
 		if want == nil {
@@ -446,6 +471,22 @@ func init() {
 					if again, err := json.Marshal(f2); err != nil || !bytes.Equal(again, data) {
 						c.Fail("", "marshalling the decoded feature again is not byte-identical", map[string]interface{}{"case": d(), "first": string(data), "second": string(again)})
 					}
+					// one Feature value as the destination of every row: what the previous row left in the caller's hands
+					// (its property map) must not change, and the value must hold this row's feature
+					heldProps, heldCopy := c02longF.Properties, normVal(map[string]interface{}(c02longF.Properties))
+					if derr := json.Unmarshal(data, c02longF); derr != nil {
+						c.Fail("", "json.Unmarshal into a feature value used for an earlier decode failed", map[string]interface{}{"case": d(), "err": derr.Error()})
+						c02longF = &geojson.Feature{}
+					} else {
+						if diff := sameFeature(f, c02longF); diff != "" {
+							c.Fail("", "json.Unmarshal into a feature value used for an earlier decode does not give this feature: "+diff, map[string]interface{}{"case": d(), "json": string(data)})
+							c02longF = &geojson.Feature{}
+						}
+						if heldProps != nil && !reflect.DeepEqual(normVal(map[string]interface{}(heldProps)), heldCopy) {
+							c.Fail("", "decoding a later feature into the same value changed the property map handed out by the earlier decode", map[string]interface{}{"earlier_properties_then": heldCopy, "earlier_properties_now": fmt.Sprintf("%#v", heldProps)})
+						}
+					}
+					c.Eval()
 					var generic map[string]interface{}
 					json.Unmarshal(data, &generic)
 					if generic["type"] != "Feature" {
